@@ -191,7 +191,7 @@ def run(tier):
         seen.add(p.sig)
         progs.append(p)
     out = common.Outcome(PID)
-    extra = e3_extras.summary(e3_extras.c10_transparent(out))
+    extra = e3_extras.summary(e3_extras.safe(e3_extras.c10_transparent, out))
     return e1.finish(
         PID, tier, progs, t0, outcome=out, extra=extra,
         rule="one Kani harness per (shape, set of ignored fields, transparent field, concrete format spec); all field payloads and the variant selector are symbolic; the bytes "
